@@ -410,7 +410,7 @@ mut('C10', 'substitute-prunes-early', 'circuit.py', "                if l.driver
 # rules that are decided by evaluation when the code is inside the evaluator subset report under the evaluated rule's id
 _EVALUATED_ALIAS = {
     'C11': ({'C11.range', 'C11.decl', 'C11.ports', 'C11.pins', 'C11.const', 'C11.names'}, 'C11.netlist'),
-    'C18': ({'C18.chain', 'C18.rank', 'C18.order'}, 'C18.maps'),
+    'C18': ({'C18.chain', 'C18.rank', 'C18.order', 'C18.grammar'}, 'C18.maps'),
     'C14': ({'C14.accumulate', 'C14.triple'}, 'C14.records'),
     'C20': ({'C20.positions', 'C20.options', 'C20.twins', 'C20.grammar'}, 'C20.extract'),
     'C09': ({'C09.ctor', 'C09.remove', 'C09.containers', 'C09.backref', 'C10.copy', 'C10.pickle', 'C10.elim', 'C10.pins', 'C10.keys', 'C10.names', 'C10.sub-shape'}, 'C09.history'),
@@ -421,4 +421,4 @@ for _m in M:
     if _al and _m.get('rule'):
         _r = _m['rule'] if isinstance(_m['rule'], (list, tuple)) else [_m['rule']]
         if set(_r) & _al[0] and _al[1] not in _r:
-            _m['rule'] = list(_r) + [_al[1]] + (['C09.history', 'C10.function'] if _m.get('prop') in ('C09', 'C10') else [])
+            _m['rule'] = list(_r) + [_al[1]] + (['C09.history', 'C10.function'] if _m.get('prop') in ('C09', 'C10') else []) + (['C18.extract'] if _m.get('prop') == 'C18' else [])
